@@ -1,6 +1,7 @@
 package kit
 
 import (
+	"fmt"
 	"go/types"
 	"sync"
 
@@ -365,6 +366,24 @@ func WithAnon(fn *ssa.Function) []*ssa.Function {
 	out := []*ssa.Function{fn}
 	for _, a := range fn.AnonFuncs {
 		out = append(out, WithAnon(a)...)
+	}
+	return out
+}
+
+// DumpAtoms prints every conditional edge atom of fn (development aid).
+func DumpAtoms(fn *ssa.Function) []string {
+	var out []string
+	for _, b := range fn.Blocks {
+		if len(b.Instrs) == 0 {
+			continue
+		}
+		if ifi, ok := b.Instrs[len(b.Instrs)-1].(*ssa.If); ok {
+			for _, tr := range []bool{true, false} {
+				for _, a := range EdgeAtoms(ifi.Cond, tr) {
+					out = append(out, fmt.Sprintf("b%d %v: %s", b.Index, tr, a))
+				}
+			}
+		}
 	}
 	return out
 }
